@@ -116,9 +116,20 @@ def theorem_modules(prop: str) -> list[str]:
 
 
 def theorem_names(prop: str) -> list[str]:
+    """names of all theorems of the property's theorem files, qualified by the namespaces opened below `Physt`"""
     out = []
     for f in theorem_files(prop):
-        out += re.findall(r"^theorem\s+([A-Za-z0-9_'.]+)", strip_comments(f.read_text()), flags=re.M)
+        stack: list[str] = []
+        for line in strip_comments(f.read_text()).splitlines():
+            m = re.match(r"^namespace\s+([A-Za-z0-9_'.]+)", line)
+            if m:
+                stack.append(m.group(1)); continue
+            m = re.match(r"^end\s+([A-Za-z0-9_'.]+)", line)
+            if m and stack and stack[-1] == m.group(1):
+                stack.pop(); continue
+            m = re.match(r"^theorem\s+([A-Za-z0-9_'.]+)", line)
+            if m:
+                out.append(".".join([x for x in stack if x != "Physt"] + [m.group(1)]))
     return out
 
 
